@@ -41,6 +41,8 @@ MEDIUM = [
     "typedef int T; void f(void) { T * p; int q = sizeof (T[2]){0}; }",
     "# 5 \"m3.c\"\nint T = 3; int w = (T) * 2; k() { return (T)(1); }",
     "struct S { int m : 2; } s = { .m = (short)1 }; enum { E = sizeof(struct S) };",
+    "typedef char T; int f(int T, int n) { T * n; return n; }",
+    "typedef int T; void g(void) { T * x; { T * y; } }",
 ]
 LONG = [
     "# 11 \"l1.c\"\ntypedef int T; typedef T *PT; struct S { T a; PT b; }; T f(T x) { { T T; T * x; } return (T)x; }\n# 9 \"l1.h\"\nT g; q1() { return 1; }",
@@ -192,7 +194,7 @@ def run(tier):
     # two-switch schedules x^k y^j x* y* of medium-sized programs: every pair (how far A is, how far B is) meets once.
     # Complete within its shape; it is the shape in which state shared through a class attribute or a module-level
     # object of one parse is clobbered while another sits between saving and using it.
-    pairs = [(0, 1), (0, 2), (1, 2), (2, 3), (3, 4), (0, 4)] if tier == "quick" else \
+    pairs = [(0, 1), (0, 2), (1, 2), (2, 3), (3, 4), (0, 4), (5, 6), (6, 5), (5, 2)] if tier == "quick" else \
         [(a, b) for a in range(len(MEDIUM)) for b in range(len(MEDIUM)) if a != b]
     n2 = 0
     for a, b in pairs:
